@@ -142,6 +142,37 @@ class SitePeer(Peer):
                 conn.close_after_send()
 
 
+class ComboPeer(Peer):
+    """HTTP site + scripted FTP server behind one fake network: connections to port 21 and
+    to the passive data port go to the FTP peer, everything else to the site peer."""
+
+    def __init__(self, site, ftp_script, strategy=None):
+        from vt.ftpharn import FTPPeer, DATA_PORT
+        self.http = SitePeer(site, strategy)
+        self.ftp = FTPPeer(ftp_script)
+        self.data_port = DATA_PORT
+        self.ftp_connections = []      # (host name, port) of every FTP-side connection
+
+    @property
+    def requests(self):
+        return self.http.requests
+
+    def _is_ftp(self, conn):
+        return conn.port in (21, self.data_port)
+
+    def on_connect(self, conn):
+        if self._is_ftp(conn):
+            self.ftp_connections.append((getattr(conn, 'host_name', conn.host), conn.port))
+            return self.ftp.on_connect(conn)
+        return self.http.on_connect(conn)
+
+    def on_data(self, conn, data):
+        return (self.ftp if self._is_ftp(conn) else self.http).on_data(conn, data)
+
+    def on_client_close(self, conn):
+        return (self.ftp if self._is_ftp(conn) else self.http).on_client_close(conn)
+
+
 class SiteResolver:
     """Installed as the application's Resolver class: name -> fixed fake address."""
     table = {}
